@@ -44,14 +44,14 @@ fn tails(alpha: &[Pkt]) -> Vec<(String, Vec<u8>)> {
 
 pub fn run(tier: Tier) -> i32 {
     let rep = Report::new("C10", tier);
-    rep.set_rule("(1) lemma: for every receiver state of the C08 closure (1 slot: closure; 2 slots: depth 4, thorough closure) x every lemma packet of the 46-packet alphabet (valid packets and those rejected for bad CRC / unknown id / no storage / unknown mandatory extension / unresolvable re-use / oversize) x every tail (1..4 zero bytes, every alphabet packet, FF*8, extension-like bytes, zero label, one byte): decap(q||t) equals decap(q) in outcome, consumed length = |q| and successor snapshot; (2) 2..=6 zero bytes give Padding consuming all in every state; (3) all frames of <= 3 (thorough 4) packets drawn from two real fragment trains continuing across frames plus complete packets and rejected packets, followed by 0..=5 zero bytes, are walked by consumed lengths and compared with stand-alone decapsulation; (4) every packet of the corpus is checked not to read as padding. distinct = (packet, outcome)");
+    rep.set_rule("(1) lemma: for every receiver state of the C08 closure (1 slot: closure; 2 slots: depth 7, thorough closure) x every lemma packet of the 46-packet alphabet (valid packets and those rejected for bad CRC / unknown id / no storage / unknown mandatory extension / unresolvable re-use / oversize) x every tail (1..4 zero bytes, every alphabet packet, FF*8, extension-like bytes, zero label, one byte): decap(q||t) equals decap(q) in outcome, consumed length = |q| and successor snapshot; (2) 2..=6 zero bytes give Padding consuming all in every state; (3) all frames of <= 3 (thorough 4) packets drawn from two real fragment trains continuing across frames plus complete packets and rejected packets, followed by 0..=5 zero bytes, are walked by consumed lengths and compared with stand-alone decapsulation; (4) every packet of the corpus is checked not to read as padding. distinct = (packet, outcome)");
     rep.assume("frames longer than 4 packets follow from the lemma by induction on the position (the successor state after each packet is a state of the closure, where the lemma was checked)");
     let mgr = mgr_std();
     for slots in [1usize, 2] {
         let buffers: Vec<usize> = (0..slots + 3).map(|i| 4 + i).collect();
         let sys = rxmodel::Sys::new(slots, 4, buffers, false);
         let quiet = Report::new("C10-states", tier);
-        let (max_states, max_depth) = if tier.thorough() { (4_000_000, 64) } else if slots == 1 { (400_000, 64) } else { (250_000, 4) };
+        let (max_states, max_depth) = if tier.thorough() { (4_000_000, 64) } else if slots == 1 { (400_000, 64) } else { (250_000, 7) };
         let ex = explore(&sys, &Limits { max_states, max_depth }, &quiet, "r");
         rep.part(json!({"model": format!("receiver-{}-slots", slots), "states": ex.states.len(), "closure_reached": ex.closed, "max_depth": ex.depth}));
         if !ex.closed {
